@@ -2,6 +2,7 @@
 bookkeeping (with the intersection search stubbed), real calcPenaltyMask on a rectangular wall, wall orientation/closure in the
 TokamakEquilibrium and Equilibrium constructors (AST slices)."""
 import ast
+import os
 import types
 
 import numpy
@@ -24,9 +25,9 @@ META = {
     "explanation": "Index bookkeeping that puts the wall point at the contour's start/end index, decided on the real methods with symbolic indices; penalty_mask on the real "
                    "calcPenaltyMask/find_intersections with symbolic face points; anticlockwise/closed wall output from the constructor statements.",
     "bounds": "contours of 5 points; insert index in [-len-1, len+1], startInd/endInd anywhere (endInd also negative); wall-point insertion: all intersection indices and the three "
-              "proximity branches at each end; penalty mask: axis-aligned rectangular wall, cell faces on a vertical line through the wall's centre; wall polygons of 3-5 symbolic vertices",
+              "proximity branches at each end; penalty mask: axis-aligned rectangular wall [0,4]x[-2,2] with cell faces on a vertical line R=2.5 (one face symbolic) or R symbolic in [0.25,3.75] with both faces symbolic (thorough), and a trapezoid wall with slanted top/bottom edges, R=2.5, both faces symbolic (thorough); wall polygons of 3-5 symbolic vertices",
     "out": "that the refined wall point is still on the wall after refinePoint moved it to the flux surface; that cells between the targets lie inside the wall for real geometry; "
-           "slanted walls for the penalty fraction; the wall-crossing predicate itself is C20",
+           "penalty fraction for cells that are not vertical segments or for walls with symbolic vertices; the wall-crossing predicate itself is C20",
     "assumptions": ["_find_intersection returns an index pair and wall points (stubbed: arbitrary admissible values)", "calc_distance results arbitrary reals in the insertion harness"],
 }
 
@@ -135,7 +136,7 @@ def _mk_penalty(which):
 def ob_penalty(env, which="upper"):
     """calcPenaltyMask on a rectangular wall: 0 both faces inside, 1 both outside, outside fraction of |p1p2| otherwise"""
     env.resolve_abs = False
-    env.abstract_div = True
+    env.abstract_div = False  # one symbolic coordinate, concrete wall: exact normal form is small; abstraction only adds spurious paths
     env.logic = "QF_NRA"
     sym = env.mode == "sym"
     with sym_numpy(env, mla_mod, mesh_mod, eqm):
@@ -146,22 +147,39 @@ def ob_penalty(env, which="upper"):
         elif which == "lower":
             z1, z2 = env.real("Z_face_lower", lo=-3.5, hi=0.9), 1.0
             zs = [z1]
+        elif which in ("general", "slanted"):
+            z1, z2 = env.real("Z_face_lower", lo=-3.5, hi=3.5), env.real("Z_face_upper", lo=-3.5, hi=3.5)
+            env.assume(z1 < z2, "faces ordered")
+            zs = [z1, z2]
         else:
             z1, z2 = env.real("Z_face_lower", lo=2.1, hi=3.0), env.real("Z_face_upper", lo=3.1, hi=3.9)
             zs = []
-        for z in zs:
-            env.assume(((z > 2.001) | (z < 1.999)) & ((z > -1.999) | (z < -2.001)), "face not on the wall")
+        if which != "slanted":
+            for z in zs:
+                env.assume(((z > 2.001) | (z < 1.999)) & ((z > -1.999) | (z < -2.001)), "face not on the wall")
         r.Rxy, r.Zxy = MultiLocationArray(1, 1), MultiLocationArray(1, 1)
         Rline = 2.5  # a vertical grid line off the wall's centre line
+        if which == "general":
+            Rline = env.real("R_line", lo=0.25, hi=3.75)
+            env.assume((Rline > 2.001) | (Rline < 1.999), "grid line off the wall's centre line")
+            # (rays from the wall centre through a wall vertex are included: find_intersections merges the double hit)
         r.Rxy.ylow[0, 0], r.Rxy.ylow[0, 1] = Rline, Rline
         r.Zxy.ylow[0, 0], r.Zxy.ylow[0, 1] = z1, z2
         wall = numpy.array([(0.0, -2.0), (4.0, -2.0), (4.0, 2.0), (0.0, 2.0), (0.0, -2.0)])
         eq = types.SimpleNamespace(Rmin=0.0, Rmax=4.0, Zmin=-2.0, Zmax=2.0, closed_wallarray=wall)
+        ztop, zbot = 2, -2
+        if which == "slanted":
+            # trapezoid with slanted top and bottom edges (anticlockwise): top edge Z = 2 + R/4, bottom edge Z = -2 - R/4
+            wall = numpy.array([(0.0, -2.0), (4.0, -3.0), (4.0, 3.0), (0.0, 2.0), (0.0, -2.0)])
+            eq = types.SimpleNamespace(Rmin=0.0, Rmax=4.0, Zmin=-3.0, Zmax=3.0, closed_wallarray=wall)
+            ztop, zbot = 2 + Rline / 4, -2 - Rline / 4
+            for z in zs:
+                env.assume(((z > ztop + 0.001) | (z < ztop - 0.001)) & ((z > zbot + 0.001) | (z < zbot - 0.001)), "face not on the wall")
         r.calcPenaltyMask(eq)
     env.witness("mask_computed")
     m = r.penalty_mask[0, 0]
-    in1 = (z1 > -2) & (z1 < 2) if core.is_sym(z1) else (-2 < z1 < 2)
-    in2 = (z2 > -2) & (z2 < 2) if core.is_sym(z2) else (-2 < z2 < 2)
+    in1 = (z1 > zbot) & (z1 < ztop) if core.is_sym(z1) else (zbot < z1 < ztop)
+    in2 = (z2 > zbot) & (z2 < ztop) if core.is_sym(z2) else (zbot < z2 < ztop)
     if sym:
         in1 = in1 if core.is_sym(in1) else SymBool(z3.BoolVal(bool(in1)))
         in2 = in2 if core.is_sym(in2) else SymBool(z3.BoolVal(bool(in2)))
@@ -171,14 +189,14 @@ def ob_penalty(env, which="upper"):
         env.claim("mask=0_when_both_faces_inside", core.implies(both_in, SymBool(core.lift_real(m) == 0)))
         env.claim("mask=1_when_both_faces_outside", core.implies(both_out, SymBool(core.lift_real(m) == 1)))
         # one face outside: fraction of the cell's poloidal extent that is outside
-        frac_up = (z2 - 2) / (z2 - z1)     # upper face beyond the top wall
-        frac_lo = (-2 - z1) / (z2 - z1)    # lower face below the bottom wall
-        env.claim("mask=outside_fraction_when_upper_face_outside", core.implies(in1 & (z2 > 2), SymBool(core.lift_real(m) == core.lift_real(frac_up))))
-        env.claim("mask=outside_fraction_when_lower_face_outside", core.implies(in2 & (z1 < -2), SymBool(core.lift_real(m) == core.lift_real(frac_lo))))
+        frac_up = (z2 - ztop) / (z2 - z1)     # upper face beyond the top wall
+        frac_lo = (zbot - z1) / (z2 - z1)    # lower face below the bottom wall
+        env.claim("mask=outside_fraction_when_upper_face_outside", core.implies(in1 & (z2 > ztop), SymBool(core.lift_real(m) == core.lift_real(frac_up))))
+        env.claim("mask=outside_fraction_when_lower_face_outside", core.implies(in2 & (z1 < zbot), SymBool(core.lift_real(m) == core.lift_real(frac_lo))))
         env.claim("mask_in_[0,1]", (m >= 0) & (m <= 1))
     else:
         a, b = bool(in1), bool(in2)
-        want = 0.0 if (a and b) else (1.0 if (not a and not b) else ((z2 - 2) / (z2 - z1) if a else (-2 - z1) / (z2 - z1)))
+        want = 0.0 if (a and b) else (1.0 if (not a and not b) else ((z2 - ztop) / (z2 - z1) if a else (zbot - z1) / (z2 - z1)))
         env.claim("mask_value(concrete)", abs(float(m) - want) < 1e-9)
 
 
@@ -217,10 +235,10 @@ OBLIGATIONS.append(Ob("wall_point_insertion_bookkeeping", ob_wallpoints, tier="q
                       desc="contour[startInd] / contour[endInd] are the wall points; original order kept; at most one original replaced per end; caches invalidated",
                       stubs=["_find_intersection -> admissible indices and wall points", "calc_distance -> arbitrary reals"], bounds="5-point contour, all index combinations, 3 proximity branches per end",
                       max_paths=20000))
-for _w in ("upper", "lower", "both_outside"):
-    OBLIGATIONS.append(Ob("penalty_mask_rectangular_wall_%s" % _w, _mk_penalty(_w), tier="thorough", family="calcPenaltyMask",
+for _w in ("upper", "lower", "both_outside", "general", "slanted"):
+    OBLIGATIONS.append(Ob("penalty_mask_%s_wall_%s" % ("rectangular" if _w != "slanted" else "trapezoid", _w), _mk_penalty(_w), tier="quick" if _w not in ("general", "slanted") else "thorough", family="calcPenaltyMask",
                           encodes=["hypnotoad.core.mesh:MeshRegion.calcPenaltyMask", "hypnotoad.core.equilibrium:find_intersections"],
-                          desc="0 / 1 / outside fraction of the poloidal extent", bounds="rectangular wall [0,4]x[-2,2]; faces on the line R=2.5; %s face(s) symbolic" % _w,
+                          desc="0 / 1 / outside fraction of the poloidal extent", bounds="rectangular wall [0,4]x[-2,2]; faces on the line R=2.5 (general: R symbolic in [0.25,3.75]; slanted: trapezoid (0,-2),(4,-3),(4,3),(0,2), R=2.5, both faces symbolic); %s face(s) symbolic" % _w,
                           max_paths=20000, wall_s=600))
 for _n in (3, 4, 5):
     OBLIGATIONS.append(Ob("wall_orientation_%d_vertices" % _n, _mk_orientation(_n), tier="quick" if _n < 5 else "thorough", family="wall output",
